@@ -33,7 +33,7 @@ ASSUMPTIONS = [
     "the pristine interpreter is `python -c` importing vlib.pristine (stdlib json/os/subprocess only) and then the entry point",
 ]
 
-JUNK = ["@", "#", "$", "'", '"', "\r", "\f", "\0", "é", "→", "`", "\\", "?", "!", "%", "&", "=", "(", ")", "~", "^"]
+JUNK = ["@", "#", "$", "'", '"', "\r", "\f", "\0", "é", "→", "`", "\\", "?", "!", "%", "&", "=", "(", ")", "~", "^", "٢", "２", "\x85", "\u2028", "\x1c", "\v"]
 LEXEMES = (
     ["register", "map", "let", "macro", "loop", "from", "usepulses", "import", "as", "branch", "subcircuit"]
     + list("<>|{};[],*:")
@@ -129,6 +129,14 @@ def _string_case(ch):
                 "register q[1]\nbranch { '0': { g q[0] } }\n",
                 "from . usepulses *\nregister q[1]\n",
                 "from a..b usepulses *\n",
+                "let x 1.0e309\n",
+                "let y -2.5E+999\nregister q[1]\n",
+                "register q[1]\ng 1.0e309\n",
+                "import a as b\n",
+                "\n\n\n\n   register r[0]\n",
+                "register r[٢]\n",
+                "register r[2]\ng ２\n",
+                "register r[2] /* a\rb\x85c\u2028d */\n}\n",
                 "from vlib.pulses.moda usepulses *\nlet n 2.5\nregister q[1]\nloop n { subcircuit { XA q[0] } }\n",
                 "from vlib.pulses.moda usepulses *\nlet n -1\nregister q[1]\nloop n { subcircuit { XA q[0] } }\n",
                 "from vlib.pulses.moda usepulses *\nlet n 0.5\nregister q[1]\nsubcircuit n { XA q[0] }\n",
@@ -209,7 +217,7 @@ def _has_lexical_fault(text):
     only claimed when the text contains no comment opener at all."""
     if "/" in text:
         return False
-    return any(c in text for c in "@#$\"`\\?!%&=()~^\r\f\0é→")
+    return any(c in text for c in "@#$\"`\\?!%&=()~^\r\f\0é→٢２\x85\u2028\x1c\v")
 
 
 # ------------------------------------------------------------------------------ histories
@@ -225,6 +233,11 @@ POOL_TEXTS = [
     ("parse", "register q[2] } \n"),
     ("parse", "}"),
     ("parse", "let x 1.0e-06\nregister q[1]\n// c\n/* a */ g x /* b */\n"),
+    ("parse", "import a as b\n"),
+    ("parse", "\n\n\n\n   register r[0]\n"),
+    ("header", "import a as b\n"),
+    ("parse", "let x 1.0e309\n"),
+    ("parse", "register q[2]\n\n\n   import a as b\n"),
     ("header", "let n 3\nregister q[n]\ng q[0]\nsyntax error here {{{\n"),
     ("header", "register q[0]\n"),
     ("parse-rel", "from .moda usepulses *\nregister q[2]\nXA q[0]\nGP q[1]\n"),
